@@ -102,8 +102,17 @@ package search
 //@   concl lineNilOK(s, a, off)
 //@ axiom lineCons(s $BS, a $MvArr, off int, n int)
 //@   concl lineConsOK(s, a, off, n)
-//@ axiom lineSeg(s $BS, a $MvArr, i int, b $MvArr, j int, n int)
-//@   concl lineSegOK(s, a, i, b, j, n)
+//@ # a line depends only on the array segment it occupies: by induction on its length
+//@ lemma lineSeg(s $BS, a $MvArr, i int, b $MvArr, j int, n int)
+//@   props C07
+//@   induct n
+//@   hyp 0 <= n && n <= 4096 && 0 <= i && i <= 4096 && 0 <= j && j <= 4096 && i + n <= 4096 && j + n <= 4096 && forall(k, i, i + n, a[k] == b[k + (j - i)])
+//@   use lineNil(s, a, i)
+//@   use lineNil(s, b, j)
+//@   use lineCons(s, a, i, n)
+//@   use lineCons(s, b, j, n)
+//@   use lineSeg(mkS(s, a[i]), a, i + 1, b, j + 1, n - 1)
+//@   concl lineS(s, a, i, n) == lineS(s, b, j, n)
 //@
 //@ # gs: an arbitrary board state, [gof, gof+gn): an arbitrary segment of the buffer (schemas, see `instances`)
 //@ ghost gs $BS
@@ -140,7 +149,7 @@ package search
 //@   props C07
 //@   use lineCons(s, a2, i, l + 1)
 //@   use lineSeg(mkS(s, m), a2, i + 1, a, j, l)
-//@   hyp l >= 0 && l < 64 && accS(s, m) && lineS(mkS(s, m), a, j, l) && a2[i] == m && forall(k, 0, l, a2[i + 1 + k] == a[j + k])
+//@   hyp l >= 0 && l < 64 && 0 <= i && i <= 2080 && 0 <= j && j <= 2080 && accS(s, m) && lineS(mkS(s, m), a, j, l) && a2[i] == m && forall(k, i + 1, i + 1 + l, a2[k] == a[k + (j - (i + 1))])
 //@   concl lineS(s, a2, i, l + 1)
 //@
 //@ # quiescence never touches the PV buffer and restores the (abstract) board (proved here, against the body)
